@@ -340,6 +340,10 @@ func propC14(c *Ctx) {
 	rulePoolSymmetric(c, rps, pf)
 	rbo := c.Rule("child-bc-own", "every Bytecode header stored into a VM is that VM's own storage (fresh, the caller's program, or its previous header): a header shared by child VMs makes one Invoker run another's function", 2)
 	ruleChildBytecodeOwn(c, rbo, vf)
+	ruc := c.Rule("unregister-clears", "a method of Invoker that unregisters its child VM also clears its reference to it on every path (a cached but unregistered child would be reused by the next Invoke)", 1)
+	ruleUnregisterClears(c, ruc, pf)
+	rfci := c.Rule("frame-claim-init", "the call routine stores every field of a call frame it claims before it returns successfully (a function invoked from Go on a reused child VM starts with clean frames)", 3)
+	ruleFrameClaimInit(c, rfci, vf)
 }
 
 func rulePoolZero(c *Ctx, rule string, vf *vmFacts, pf *poolFacts) {
@@ -506,6 +510,10 @@ func propC06(c *Ctx) {
 
 	rtr := c.Rule("throw-reentry", "the unwinding routine is not re-entered from the functions it calls while the VM's frame state is only partly switched", 1)
 	ruleThrowReentry(c, rtr)
+	rie := c.Rule("invoke-err", "the error result of every Invoker.Invoke in the library is stored, returned or passed on: an error or recovered panic raised in a script callback reaches the calling script", 4)
+	ruleInvokeErr(c, rie)
+	rfci := c.Rule("frame-claim-init", "the call routine stores every field of a call frame it claims before it returns successfully (a reused frame must not keep the error handlers of an earlier activation)", 3)
+	ruleFrameClaimInit(c, rfci, vf)
 	rjd := c.Rule("json-depth", "every growth of the JSON scanner's nesting stack is followed by the maximum-depth test: the recursive decoder cannot be driven into exhausting the Go stack, which no recover() can stop", 1)
 	ruleJSONDepth(c, rjd)
 
@@ -754,7 +762,11 @@ func propC09(c *Ctx) {
 	if pf != nil {
 		rps := c.Rule("pool-symmetric", "child VMs are registered on and unregistered from the same pool (the root VM's): Abort reaches children only through that registry, and a stale entry aborts whoever holds the pooled VM next", 1)
 		rulePoolSymmetric(c, rps, pf)
+		ruc := c.Rule("unregister-clears", "a method of Invoker that removes its child VM from the registry Abort walks also clears its reference to the child on every path", 1)
+		ruleUnregisterClears(c, ruc, pf)
 	}
+	rfci := c.Rule("frame-claim-init", "the call routine stores every field of a call frame it claims (an aborted run leaves its frames as they were; the next run must not inherit their error handlers)", 3)
+	ruleFrameClaimInit(c, rfci, vf)
 	rasl := c.Rule("abort-store-loop", "no store to the abort flag lies inside the loop of Run that re-enters the dispatch loop after a recovered panic", 1)
 	ruleAbortStoreLoop(c, rasl, vf, fAbort)
 	rcv := c.Rule("call-vm", "every Call value built by a method of VM or Invoker carries the VM, so a Go callee reached through it can observe Abort", 3)
